@@ -357,3 +357,65 @@ def install(cfg):
         if is_plain(s_):
             return s_.encode("utf-8")
         return interp.mk("vbytes", S.utf8_encode(interp.ctx, interp.str_term(s_)))
+
+    @cfg.stub(api.make_key)
+    def make_key(interp, kind, name, private=True, curve=None, params=None, bits=2048):
+        from . import trusted_crypto as TC
+        from joserfc.jwk import RSAKey, ECKey, OKPKey
+        sk = z3.Int("key!" + name)
+        if kind == "rsa":
+            b = bits if isinstance(bits, int) else interp.int_term(bits)
+            bt = z3.IntVal(b) if isinstance(b, int) else b
+            raw = TC.mk_key("rsa_priv", sk, bits=bt) if private else TC.mk_key("rsa_pub", TC.Pub(sk), bits=bt)
+            cls = RSAKey
+        elif kind == "ec":
+            raw = TC.mk_key("ec_priv", sk, curve=curve) if private else TC.mk_key("ec_pub", TC.Pub(sk), curve=curve)
+            cls = ECKey
+        elif kind == "okp":
+            raw = TC.mk_key(curve + "_priv", sk) if private else TC.mk_key(curve + "_pub", TC.Pub(sk))
+            cls = OKPKey
+        else:
+            raise Unsupported("make_key(%r)" % kind)
+        return interp.instantiate(cls, [raw, raw, params], {})
+
+    def _pub_ident(interp, key):
+        from . import trusted_crypto as TC
+        raw = interp.get_attr(key, "_raw_value")
+        if isinstance(raw, Foreign):
+            return raw.f["ident"] if raw.kind.endswith("_pub") else TC.Pub(raw.f["ident"]), raw
+        return None, raw
+
+    @cfg.stub(api.spec_verify)
+    def spec_verify(interp, alg, key, msg, sig):
+        from . import trusted_crypto as TC
+        from .reference import SIG_SPEC
+        fam, hn, extra = SIG_SPEC[alg]
+        mt, st = interp.bytes_term(msg), interp.bytes_term(sig)
+        if fam == "none":
+            return False
+        ident, raw = _pub_ident(interp, key)
+        if fam == "hmac":
+            t = TC.HMAC(z3.StringVal(hn), interp.bytes_term(raw), mt)
+            return boolval(interp, st == t)
+        if fam == "rsa-pkcs1":
+            return boolval(interp, TC.SigValid(z3.StringVal("RSA/PKCS1v15/" + hn), ident, mt, st))
+        if fam == "rsa-pss":
+            return boolval(interp, TC.SigValid(z3.StringVal("RSA/PSS(mgf1=%s,salt=%d)/%s" % (hn, extra, hn)), ident, mt, st))
+        if fam == "ecdsa":
+            L = extra[1]
+            from .strings import flatten_concat
+            parts = flatten_concat(simp(st))
+            if len(parts) == 2 and interp.ctx.entails(z3.And(z3.Length(parts[0]) == L, z3.Length(parts[1]) == L)):
+                r, s_ = S.OS2IP(parts[0]), S.OS2IP(parts[1])      # R || S, each of the curve's fixed length
+            else:
+                r = S.OS2IP(z3.SubString(st, 0, L))
+                s_ = S.OS2IP(z3.SubString(st, L, z3.Length(st) - L))
+            return boolval(interp, z3.And(z3.Length(st) == 2 * L, TC.ECDSAValid(z3.StringVal(hn), ident, mt, r, s_)))
+        if fam == "eddsa":
+            nm = raw.kind.rsplit("_", 1)[0]
+            return boolval(interp, TC.SigValid(z3.StringVal("EdDSA/" + nm), ident, mt, st))
+        raise Unsupported("spec_verify(%s)" % alg)
+
+    @cfg.stub(api.known)
+    def known(interp, fid):
+        return fid in api.OPEN_FINDINGS
